@@ -392,7 +392,44 @@ def _host2(cls_name):
     return Host()
 
 
+def rule_tconst_numeric(ctx, irs):
+    """A block may be given its time constant as a plain number (or a config value): the number must reach the exported State's
+    t_const (from where System._store_tf fills dae.Tf) exactly like a parameter does.  Every block is elaborated a second time
+    with its time-constant arguments replaced by distinct numbers; each State whose t_const is parameter P in the symbolic
+    elaboration must then carry the number given for P."""
+    n = 0
+    for name, (argspec, ref, out) in SPECS.items():
+        sym = irs[name]
+        tparams = [a for a, sp_ in argspec.items() if sp_[0] == "param" and a.startswith("T")]
+        states = {vn: v for vn, v in sym.host.cache.all_vars.items() if vn.startswith("B_") and type(v).__name__ == "State"}
+        if not tparams or not any(getattr(v.t_const, "name", None) in tparams for v in states.values()):
+            continue
+        values = {a: 0.25 * (k + 1) for k, a in enumerate(tparams)}
+        spec2 = {a: (("const", values[a]) if a in values else sp_) for a, sp_ in argspec.items()}
+        try:
+            num = _host(name, spec2)
+            nvars = num.cache.all_vars
+        except Exception as ex:     # e.g. zero_out flags on plain numbers are not supported by the block
+            ctx.undecided("C18.tconst", name, "cannot be elaborated with numeric time constants: %s" % str(ex)[:80], where(BLOCK, _lines.get(name, 1)))
+            continue
+        bad = []
+        for vn, v in states.items():
+            pn = getattr(v.t_const, "name", None)
+            if pn not in values:
+                continue
+            n += 1
+            v2 = nvars.get(vn)
+            tv = getattr(getattr(v2, "t_const", None), "v", None)
+            if v2 is None or tv is None or float(tv) != values[pn]:
+                bad.append("state %s: time constant %s given as %g arrives as %s" % (vn, pn, values[pn], "None" if tv is None else tv))
+        ctx.check(not bad, "C18.tconst", name, "numeric time constants reach the exported states",
+                  "; ".join(bad) + " -- dae.Tf keeps the default 1 for such a state and the block realises another transfer function",
+                  where(BLOCK, _lines.get(name, 1)))
+    ctx.count("numeric_tconst_states", n)
+
+
 def run(ctx):
+    ctx.rule("C18.tconst", "blocks elaborated with numeric time constants: the number reaches State.t_const", 8)
     ctx.rule("C18.tf", "Laplace-domain elimination of the exported equations (limiters inside, freeze off, generic parameters) "
              "== documented transfer function, as rational functions in Q(s, params)", 22)
     ctx.rule("C18.bypass", "documented zero-time-constant bypass cases reduce to the documented function; flags come from "
@@ -422,4 +459,5 @@ def run(ctx):
     rule_siblings(ctx, irs)
     rule_param_use(ctx, repo)
     rule_gates(ctx, irs)
+    rule_tconst_numeric(ctx, irs)
     ctx.extra["exhaustive"] = False
